@@ -253,7 +253,7 @@ META = dict(
         "state_dict -> fresh instance -> load_state_dict; each output cell is asserted equal to the back-off recursion evaluated directly on the "
         "dictionary (ite over all contexts), histories left-padded with sos, absent unigrams -inf."),
     bounds=dict(quick="order N in 1..3, V=2 (V=3 for N=2), sos inside/outside the vocabulary, 3 sparsity patterns per shape plus the full table and the pattern 'all unigrams, no n-gram with sos in its context', histories T<=3, batch 2, chunk sizes 1..2",
-                thorough="(both tiers: one dense bigram table over 17 tokens, whose offsets need 16 bits, through the save/load path); order N in 1..4, V in {2,3}, 8 patterns per shape at densities 0.3/0.6/1, T<=4, chunk sizes 1..T+1, all per-element idx vectors"),
+                thorough="(both tiers: one dense bigram table over 17 tokens, whose offsets need 16 bits, through the save/load path); order N in 1..4 (V=2) and 1..2 (V=3), 5 patterns per shape at densities 0.3/0.6/1, T<=4, chunk sizes 1..T+1, per-element idx vectors with indices of different parity"),
     assumptions=["table values on the quarter grid (log-probabilities in [-4,0], back-off weights in [-4,2]); finite listed values (explicitly listed -inf entries are not enumerated)",
                  "history tokens inside the vocabulary (sos only as left padding)", "float32 sums of <= N grid values are exact"],
     outside=["parse_arpa_lm (regex + float() on text)", "orders above 4 / larger vocabularies", "TorchScript variants"],
@@ -266,8 +266,8 @@ def tasks(tier):
     ts = []
     q = tier == "quick"
     shapes = [(2, 0, 1), (2, 0, 2), (2, -1, 2), (3, 1, 2), (2, 0, 3), (2, 5, 3)] if q else \
-        [(V, sos, N) for V in (2, 3) for sos in (0, -1) for N in (1, 2, 3, 4) if not (V == 3 and N == 4)]
-    pats = ["full", 1, 2] if q else ["full", 1, 2, 3, 4, 5, 6, 7]
+        [(V, sos, N) for V in (2, 3) for sos in (0, -1) for N in (1, 2, 3, 4) if not (V == 3 and N >= 3)]
+    pats = ["full", 1, 2] if q else ["full", 1, 2, 3, 4]
     for V, sos, N in shapes:
         for pi, pat in enumerate(pats):
             dens = 1.0 if pat == "full" else (0.6 if pi % 2 else 0.3)
@@ -283,7 +283,7 @@ def tasks(tier):
                 for ch in range(2, T + 2):
                     ts.append(task(PROP, M_, "LookupLMH", T=T, mode="chunked", chunk=ch, **base))
             if N > 1:
-                for idxs in ([0, T], [T - 1, 1]) if q else [list(x) for x in itertools.product(range(T + 1), repeat=2)]:
+                for idxs in ([0, T], [T - 1, 1]) if q else [list(x) for x in itertools.product(range(T + 1), repeat=2) if x[0] != x[1] and (x[0] + x[1]) % 2 == 1]:
                     ts.append(task(PROP, M_, "LookupLMH", T=T, mode="idx_vec", idxs=idxs, **base))
     for V, sos, N in ((2, -1, 2), (2, 5, 3)) if q else ((2, -1, 2), (2, 5, 3), (3, -1, 2), (2, 0, 2), (2, -1, 4)):
         ts.append(task(PROP, M_, "LookupLMH", V=V, sos=sos, N=N, pattern="sos_backoff", density=1.0, Bsz=2, T=2 if q else 3, mode="full"))
